@@ -469,15 +469,19 @@ Definition has_failed (u : Z) (evs : list event) : bool :=
    iteration; [late]: uids that arrived after they had been named; [old]: uids
    named in requests consumed by an EARLIER iteration *)
 Fixpoint c08_walk (ops : list op) (its : list (snap * list Z)) (named pend late prev_pool old : list Z)
-  (a1 a2 a3 a4 : bool) : list bool :=
+  (a1 a2 a3 a4 a5 : bool) : list bool :=
   match ops with
-  | [] => [a1; a2; a3; a4]
-  | CancelMsg us :: r => c08_walk r its (named ++ us) (pend ++ us) late prev_pool old a1 a2 a3 a4
+  | [] => [a1; a2; a3; a4; a5]
+  | CancelMsg us :: r => c08_walk r its (named ++ us) (pend ++ us) late prev_pool old a1 a2 a3 a4 a5
+  (* the two halves of a request, in whichever order the code performs them: the
+     request exists from its first half on; the loop consumes it with the queue item *)
+  | CancelReg us :: r => c08_walk r its (named ++ us) pend late prev_pool old a1 a2 a3 a4 a5
+  | CancelQ us :: r => c08_walk r its (named ++ us) (pend ++ us) late prev_pool old a1 a2 a3 a4 a5
   | Arrive l :: r =>
-      c08_walk r its named pend (late ++ filter (fun u => zmem u named) (map r_uid l)) prev_pool old a1 a2 a3 a4
+      c08_walk r its named pend (late ++ filter (fun u => zmem u named) (map r_uid l)) prev_pool old a1 a2 a3 a4 a5
   | Iterate _ :: r =>
       match its with
-      | [] => [a1; a2; a3; a4]
+      | [] => [a1; a2; a3; a4; a5]
       | (sn, _) :: its' =>
           let evs := sn_events sn in
           let pool := concat (map snd (sn_pool sn)) in
@@ -486,15 +490,18 @@ Fixpoint c08_walk (ops : list op) (its : list (snap * list Z)) (named pend late 
                                       else true) pend in
           let b2 := forallb (fun e => match e with Canceled u => zmem u named | _ => true end) evs in
           let b3 := forallb (fun e => match e with Started u _ => negb (zmem u late) | _ => true end) evs in
-          (* once the iteration that consumed the request is over, a named task is never started *)
+          (* once the iteration that consumed the request is over, a named task is never started ... *)
           let b4 := forallb (fun e => match e with Started u _ => negb (zmem u old) | _ => true end) evs in
-          c08_walk r its' named [] late pool named (a1 && b1) (a2 && b2) (a3 && b3) (a4 && b4)
+          (* ... and is not waiting: whether it waited before, came in with the same queue drain or comes later *)
+          let old' := old ++ pend in
+          let b5 := forallb (fun u => negb (zmem u old')) pool in
+          c08_walk r its' named [] late pool old' (a1 && b1) (a2 && b2) (a3 && b3) (a4 && b4) (a5 && b5)
       end
-  | _ :: r => c08_walk r its named pend late prev_pool old a1 a2 a3 a4
+  | _ :: r => c08_walk r its named pend late prev_pool old a1 a2 a3 a4 a5
   end.
 
 Definition c08_bits (ops : list op) (its : list (snap * list Z)) : list bool :=
-  c08_walk ops its [] [] [] [] [] true true true true.
+  c08_walk ops its [] [] [] [] [] true true true true true.
 
 Definition c08_sched_row (c : cfg) (ns0 : list node) (ops : list op) (its : list (snap * list Z)) : list bool :=
   corr_bit c ns0 ops its :: c08_bits ops its.
